@@ -431,3 +431,51 @@ def tlc_conformance(module, cfg, trace_path, xmx="3g", timeout=900):
     best = min(ends, key=lambda t: t[1])
     drifted = re.findall(r'"([^"]+)"', json.dumps(best[2])) if best[1] else []
     return runs, drifted, int(m.group(2)), int(m.group(1))
+
+
+def tlc_scenarios(module, cfg, trace_path, is_boundary, skip=None, xmx="2g", timeout=600, parallel=10):
+    """Blocking trace validation against the ACTIONS of a model, one TLC run per scenario (scenarios start at boundary
+    records). Each run reports <<"REACHED", k, n>>: how many records it could explain. Returns a list of dicts."""
+    with open(trace_path) as f:
+        lines = [l for l in f if l.strip()]
+    scen, cur = [], None
+    for l in lines:
+        if is_boundary(l):
+            cur = [l]
+            scen.append(cur)
+        elif cur is not None:
+            cur.append(l)
+    os.makedirs(WORK, exist_ok=True)
+
+    def one(idx_sc):
+        idx, sc = idx_sc
+        head = json.loads(sc[0])
+        if skip and skip(head):
+            return {"id": head.get("id"), "skipped": True}
+        path = os.path.join(WORK, "scen_%d_%d.ndjson" % (os.getpid(), idx))
+        with open(path, "w") as f:
+            f.writelines(sc)
+        meta = os.path.join(WORK, "sc_%d_%d" % (os.getpid(), idx))
+        shutil.rmtree(meta, ignore_errors=True)
+        os.makedirs(meta, exist_ok=True)
+        env = dict(os.environ)
+        env["JAVA_TOOL_OPTIONS"] = "-Xss512m -Xms128m -Xmx%s -XX:ParallelGCThreads=1 -Dtlc2.tool.queue.IStateQueue=StateDeque" % xmx
+        env["TRACE"] = path
+        p = run(["timeout", str(timeout), "tlc", "-workers", "1", "-metadir", meta, "-cleanup", "-noGenerateSpecTE", "-config", cfg, module + ".tla"], cwd=SPEC, env=env)
+        shutil.rmtree(meta, ignore_errors=True)
+        try:
+            os.remove(path)
+        except OSError:
+            pass
+        m = re.search(r'<<"REACHED", (\d+), (\d+)>>', p.stdout)
+        st = FINAL_RE.search(p.stdout)
+        res = {"id": head.get("id"), "skipped": False, "records": len(sc), "reached": int(m.group(1)) if m else None,
+               "states": int(st.group(2)) if st else 0, "transitions": int(st.group(1)) if st else 0}
+        if m is None or p.returncode != 0:
+            res["error"] = p.stdout[-600:]
+        elif res["reached"] < len(sc):
+            res["stuck_at"] = json.loads(sc[res["reached"]]) if res["reached"] < len(sc) else None
+        return res
+
+    with ThreadPoolExecutor(max_workers=parallel) as ex:
+        return list(ex.map(one, enumerate(scen)))
